@@ -332,6 +332,10 @@ def c14(tier):
     # the statement-level family with directives on statements that have targets and key-values
     cases2 = [c for c in tlc_cases(v, "intended/StmtKv.cfg") if c["s"]["dir"] != "none"]
     run_cases(binary, cases2, v, {"C14"}, "directives-kv")
+    # ... and with every inter-token layout (a statement whose name, `!` and `(` are on different lines still starts on the
+    # line of its name)
+    cases3 = [c for c in tlc_cases(v, "intended/StmtKvLayout.cfg") if c["s"]["dir"] != "none"]
+    run_cases(binary, cases3, v, {"C14"}, "directives-layout")
     v.cov["rule"] = ("every file of <= N lines over the 18-kind line alphabet of Directives.tla containing a statement, both modes, "
                      "packed with code lines in between; plus directives on statements with targets and key-values")
     v.cov["exhaustive"] = True
